@@ -529,6 +529,54 @@ theorem publish_group_skip_loses_updates :
     getVar (publishGroupSkip (.name "stats") outer [group]) "stats" "n" = some (exScalar 0) := by
   decide
 
+/-! ## 6c. the broadcast output of one call of the lifted body (lift.py:1017-1022) -/
+
+/-- **`broadcast_readd_only_missing`.** The broadcast output handed back to `axes_scan` is the body's broadcast
+output followed by exactly those broadcast INPUT collections it lacks (the immutable ones, which `repack_fn`
+does not return) — nothing the body produced is ever overwritten: a collection present in the body's output keeps
+the body's value (with all its variables, including lazily created ones), an absent one gets the input's. -/
+theorem broadcast_readd_only_missing {α : Type} (bIn bOut : Vars α) (hnd : (bIn.map (·.1)).Nodup) :
+    reinject bIn bOut = bOut ++ bIn.filter (fun cc => (dget bOut cc.1).isNone) ∧
+    (∀ k v, dget bOut k = some v → dget (reinject bIn bOut) k = some v) ∧
+    (∀ k, dget bOut k = none → dget (reinject bIn bOut) k = dget bIn k) := by
+  have heq : reinject bIn bOut = bOut ++ bIn.filter (fun cc => (dget bOut cc.1).isNone) := reinject_eq bIn bOut hnd
+  refine ⟨heq, ?_, ?_⟩
+  · intro k v hk
+    rw [heq]; unfold dget at hk ⊢
+    rw [List.lookup_append, hk]; rfl
+  · intro k hk
+    rw [heq]; unfold dget at hk ⊢
+    rw [List.lookup_append, hk]
+    simp only [Option.none_or]
+    -- looking `k` up in the input collections that are missing from the output = looking it up in the input
+    have : ∀ (l : Vars α), (l.filter (fun cc => (List.lookup cc.1 bOut).isNone)).lookup k = l.lookup k := by
+      intro l
+      induction l with
+      | nil => rfl
+      | cons x xs ih =>
+        obtain ⟨kx, vx⟩ := x
+        simp only [List.filter_cons]
+        by_cases hkx : k = kx
+        · subst hkx
+          simp [hk]
+        · have hb : (k == kx) = false := by simpa using hkx
+          split
+          · simp [List.lookup_cons, hb, ih]
+          · simp [List.lookup_cons, hb, ih]
+    exact this bIn
+
+/-- the defective variant seeded as C06_g: `out_group.update(in_group)` -/
+def reinjectUpdate {α : Type} (bIn bOut : Vars α) : Vars α := dupdate bOut bIn
+
+/-- closed counter-example: the mutable broadcast collection `consts` holds `scale` on entry and the body lazily
+creates `shift` in it; re-adding only what is missing keeps both variables, `update()` throws `shift` away -/
+theorem broadcast_update_loses_lazy_init :
+    let bIn : Vars Int := [("consts", [("scale", exScalar 2)])]
+    let bOut : Vars Int := [("consts", [("scale", exScalar 2), ("shift", exScalar 7)])]
+    getVar (reinject bIn bOut) "consts" "shift" = some (exScalar 7) ∧
+    getVar (reinjectUpdate bIn bOut) "consts" "shift" = none := by
+  decide
+
 /-! ## 7. error classes: which errors are flax's own, and exactly when they are raised
 
 `scan_eq_loop` / `vmap_eq_map` compare success and result.  The theorems below add the error side for the
